@@ -12,7 +12,7 @@ def header (id : Bytes) : Bytes :=
   let c := (crc32 id).toNat
   [0, UInt8.ofNat (c / 16777216), UInt8.ofNat (c / 65536), UInt8.ofNat (c / 256), UInt8.ofNat c]
 
-def isWireOp (op : String) : Bool := op = "ser" || op = "de" || op = "prim" || op = "resume" || op = "wipe" || op = "debugfields" || op = "json_ser"
+def isWireOp (op : String) : Bool := op = "ser" || op = "de" || op = "prim" || op = "resume" || op = "wipe" || op = "debugfields" || op = "json_ser" || op = "rand_new_pkg"
 
 def runLine (line : String) : String :=
   match (line.trimAscii.toString.splitOn " ").filter (· ≠ "") with
